@@ -53,6 +53,8 @@ type mState struct {
 	done    bool
 	scalarS string // symbol of the scalar operand ("" if none)
 	trace   []string
+	pooled   map[string]int // scratch header symbol -> times handed to returnHeader
+	deferred [][]ast.Stmt   // bodies of deferred closures, run at return (LIFO)
 }
 
 func (s *mState) issue(f string, a ...interface{}) { s.issues = append(s.issues, fmt.Sprintf(f, a...)) }
@@ -99,7 +101,7 @@ type MMethod struct {
 	name   string
 	op     string
 	Group  string // arith, minmax, cmp, unary
-	scalar bool   // <Op>Scalar
+	Scalar bool   // <Op>Scalar
 	arity  int    // tensor operands: 2 (VV), 1 (scalar or unary)
 }
 
@@ -117,7 +119,7 @@ func classifyStdEng(fi *load.FuncInfo) (*MMethod, bool) {
 	base := name
 	if strings.HasSuffix(base, "Scalar") {
 		base = strings.TrimSuffix(base, "Scalar")
-		m.scalar = true
+		m.Scalar = true
 	}
 	if strings.HasSuffix(base, "Between") { // MinBetween, MaxBetween
 		base = strings.TrimSuffix(base, "Between")
@@ -133,7 +135,7 @@ func classifyStdEng(fi *load.FuncInfo) (*MMethod, bool) {
 	switch m.Group {
 	case "arith", "minmax", "cmp":
 		m.arity = 2
-		if m.scalar {
+		if m.Scalar {
 			m.arity = 1
 		}
 	case "unary":
@@ -505,7 +507,15 @@ func (s *mState) call(c *ast.CallExpr) {
 		} else {
 			s.und("Reset of unknown iterator %s", it)
 		}
-	case fn == "freeScalar" || fn == "returnHeader" || fn == "ReturnTensor":
+	case fn == "returnHeader":
+		if len(c.Args) == 1 {
+			if b, ok := s.bufOf(c.Args[0]); ok {
+				s.pooled[b]++
+			} else {
+				s.und("returnHeader of an unresolved header %s", exprStr(c.Args[0]))
+			}
+		}
+	case fn == "freeScalar" || fn == "ReturnTensor":
 	case fn == "panic":
 		s.issue("reaches %s(%s)", fn, exprStr(c.Args[0]))
 		s.done = true
@@ -883,6 +893,11 @@ func (s *mState) stmt(st ast.Stmt, m *MMethod, sc mScenario) {
 	case *ast.BlockStmt:
 		s.stmts(x.List, m, sc)
 	case *ast.DeferStmt:
+		if fl, ok := x.Call.Fun.(*ast.FuncLit); ok && len(x.Call.Args) == 0 {
+			s.deferred = append(s.deferred, fl.Body.List)
+		} else if exprStr(x.Call.Fun) == "returnHeader" {
+			s.deferred = append(s.deferred, []ast.Stmt{&ast.ExprStmt{X: x.Call}})
+		}
 	default:
 		s.und("unhandled statement %T", st)
 	}
@@ -921,7 +936,7 @@ func exprStr2(e ast.Expr) string {
 
 // run interprets the method under one scenario.
 func mRun(m *MMethod, sc mScenario) *mState {
-	s := &mState{flags: map[string]tri{}, tens: map[string]string{}, hdr: map[string]string{}, iters: map[string]*mIter{}, term: map[string]string{}, layout: map[string]string{}, fresh: map[string]bool{}, scratch: map[string]bool{}, written: map[string]bool{}}
+	s := &mState{flags: map[string]tri{}, tens: map[string]string{}, hdr: map[string]string{}, iters: map[string]*mIter{}, term: map[string]string{}, layout: map[string]string{}, fresh: map[string]bool{}, scratch: map[string]bool{}, written: map[string]bool{}, pooled: map[string]int{}}
 	// parameters
 	params := m.fi.Decl.Type.Params.List
 	var pnames []string
@@ -939,7 +954,7 @@ func mRun(m *MMethod, sc mScenario) *mState {
 	switch {
 	case m.arity == 2:
 		s.tens[pnames[0]], s.tens[pnames[1]] = "A", "B"
-	case m.scalar:
+	case m.Scalar:
 		// (t Tensor, s interface{}, leftTensor bool, opts...)
 		s.tens[pnames[0]] = "A"
 		s.scalarS = "S"
@@ -950,6 +965,12 @@ func mRun(m *MMethod, sc mScenario) *mState {
 	}
 	s.tens["retVal"] = ""
 	s.stmts(m.fi.Decl.Body.List, m, sc)
+	// deferred closures run at function exit, last registered first
+	for i := len(s.deferred) - 1; i >= 0; i-- {
+		s.done = false
+		s.stmts(s.deferred[i], m, sc)
+	}
+	s.done = true
 	s.ret = s.tens["retVal"]
 	return s
 }
@@ -1093,7 +1114,7 @@ func opTerm2(op, x, y string) string {
 func mScenarios(m *MMethod, thorough bool) []mScenario {
 	var out []mScenario
 	lefts := []tri{tU}
-	if m.scalar {
+	if m.Scalar {
 		lefts = []tri{tT, tF}
 	}
 	sames := []tri{tU}
@@ -1126,6 +1147,51 @@ func mScenarios(m *MMethod, thorough bool) []mScenario {
 
 // M2 interprets every generated method under every scenario.
 func M2(rc *RC, filter func(m *MMethod) bool, floorMethods, floorCases int) {
+	mRun3(rc, filter, floorMethods, floorCases, true, false)
+}
+
+// M7: the pooled scalar scratch header of the tensor-scalar methods goes back to the header
+// pool at most once on every mode path.
+func M7(rc *RC, floorCases int) {
+	mRun3(rc, func(m *MMethod) bool { return m.Scalar }, 0, floorCases, false, true)
+}
+
+func mRun3(rc *RC, filter func(m *MMethod) bool, floorMethods, floorCases int, doM23, doM7 bool) {
+	if doM7 {
+		rc.S.Declare("M7", "pooled scratch headers: on every mode path of every generated tensor-scalar method (deferred closures included) the scalar's header is handed to returnHeader at most once", floorCases)
+	}
+	if !doM23 {
+		for _, fi := range rc.P.SortedFuncs() {
+			m, ok := classifyStdEng(fi)
+			if !ok || (filter != nil && !filter(m)) {
+				continue
+			}
+			for _, sc := range mScenarios(m, rc.Thorough()) {
+				if sc.Alias != "" {
+					continue
+				}
+				st := mRunAliased(m, sc)
+				key := fi.Key + "[" + sc.String() + "]"
+				pos := rc.P.Pos(fi.Decl.Pos())
+				if len(st.undec) > 0 {
+					rc.S.Undec("M7", key, pos, "interpreter met a construct outside the generated template: "+strings.Join(st.undec, "; "))
+					continue
+				}
+				bad := ""
+				for b, n := range st.pooled {
+					if n > 1 {
+						bad = fmt.Sprintf("%s is handed to returnHeader %d times on this path: the header pool then serves one header to two borrowers", symName(b), n)
+					}
+				}
+				if bad != "" {
+					rc.S.Viol("M7", key, pos, bad+"   [path: "+strings.Join(st.trace, " ; ")+"]").Sig = "double return"
+				} else {
+					rc.S.Ok("M7", key, pos, fmt.Sprintf("returnHeader events: %v", st.pooled))
+				}
+			}
+		}
+		return
+	}
 	rc.S.Declare("M2", "mode contract: per generated StdEng method and scenario (mode x scalar side x result kind x iterator/raw path) the interpreted case returns the designated tensor, holding Op(L,R) in operand order, and writes no other operand", floorCases)
 	rc.S.Declare("M3", "iterator pairing and reset typestate inside the mode cases: every buffer is indexed through its own (or its clone source's) iterator, never a nil or already consumed one", floorCases)
 	rc.S.Declare("M2.methods", "generated StdEng methods recognised by the interpreter", floorMethods)
@@ -1137,7 +1203,7 @@ func M2(rc *RC, filter func(m *MMethod) bool, floorMethods, floorCases int) {
 		if filter != nil && !filter(m) {
 			continue
 		}
-		rc.S.Ok("M2.methods", fi.Key, rc.P.Pos(fi.Decl.Pos()), fmt.Sprintf("op=%s group=%s scalar=%v", m.op, m.Group, m.scalar))
+		rc.S.Ok("M2.methods", fi.Key, rc.P.Pos(fi.Decl.Pos()), fmt.Sprintf("op=%s group=%s scalar=%v", m.op, m.Group, m.Scalar))
 		for _, sc := range mScenarios(m, rc.Thorough()) {
 			st := mRunAliased(m, sc)
 			key := fi.Key + "[" + sc.String() + "]"
